@@ -15,7 +15,7 @@ if [ "${SUITE:-1}" = 1 ]; then
   (cd "$WT" && go test -vet=off -count=1 ./... >/tmp/benignchk/$L.suite.log 2>&1) || { echo "$L: SUITE FAILED: $(grep -m3 -- '--- FAIL' /tmp/benignchk/$L.suite.log | tr '\n' ' ')"; }
 fi
 alarms=""
-run1() { local c=$1; VERIF_REPO="$WT" bin/kmipsa -repo "$WT" -verif "$PWD" -outdir /tmp/benignchk/out-$L-$$/$c -prop "$c" -tier quick -evidence /tmp/benignchk/out-$L-$$/$c.json > /tmp/benignchk/$L.$c.log 2>&1; echo "$c $?" ; }
+run1() { local c=$1; VERIF_REPO="$WT" ${KMIPSA:-bin/kmipsa} -repo "$WT" -verif "$PWD" -outdir /tmp/benignchk/out-$L-$$/$c -prop "$c" -tier quick -evidence /tmp/benignchk/out-$L-$$/$c.json > /tmp/benignchk/$L.$c.log 2>&1; echo "$c $?" ; }
 export -f run1; export WT L PWD
 res=$(for c in C01 C02 C03 C04 C05 C06 C07 C08 C09 C10 C11 C12 C13 C14 C15 C16 C17 C18 C19 C20; do echo $c; done | xargs -P ${JOBS:-6} -I{} bash -c 'run1 {}')
 bad=$(echo "$res" | awk '$2!=0{print $1}' | sort | tr '\n' ' ')
